@@ -229,7 +229,8 @@ Proof.
     destruct (sc_indents s) as [|i r]; [exact B3|]. destruct (negb _); [|exact B3]. cbn. apply B3. }
   specialize (HC _ eq_refl). destruct (if (sc_indent s <=? Z.of_N col)%Z then _ else _) as [ind inds]. cbn in HC.
   destruct (ind <? Z.of_N col)%Z eqn:EL.
-  - assert (K : kpost s (set_indent (Z.of_N col) ({| in_indent := ind; in_needs_block_end := true |} :: inds) s)).
+  - destruct (BLOCK_NESTING_MAX <=? N.of_nat (length inds))%N; [discriminate|].
+    assert (K : kpost s (set_indent (Z.of_N col) ({| in_indent := ind; in_needs_block_end := true |} :: inds) s)).
     { apply kpost_set_indent; auto. cbn. split; [apply Z.ltb_lt; exact EL|exact HC]. }
     unfold bind at 1, put at 1. destruct num as [n|].
     + destruct (n <? sc_tokens_parsed s)%N; [discriminate|]. intros H.
@@ -268,7 +269,7 @@ Proof.
 Qed.
 
 Lemma Keepk_value_ifms (b : bool) : forall s0 : st,
-  b = (match sc_ifms s0 with ImPossible :: _ | ImInside :: _ => true | _ => false end) ->
+  b = (match sc_ifms s0 with ImPossible :: _ => true | _ => false end) ->
   forall s a s', SkB s -> sc_ifms s = sc_ifms s0 ->
   (if b then modify (fun s : st => set_ifms (ImInside :: tl (sc_ifms s)) s) else ret tt) s = Ok (a, s') -> kpost s s'.
 Proof.
